@@ -30,6 +30,8 @@ var c13Events = []string{
 	// damage that leaves valid JSON: one letter of a key changed, a number
 	// turned into a string
 	"damage:key", "damage:type",
+	// one letter of a result word changed ("DIFF" -> "DIFG")
+	"damage:value",
 }
 
 var c13TimeRE = regexp.MustCompile(`"time":(\d+)`)
@@ -237,6 +239,19 @@ func (w *c13World) apply(ev string) error {
 			nd = []byte("\x00\xff{{garbage")
 		case "damage:key":
 			nd = []byte(strings.Replace(string(data), `"compare"`, `"cempare"`, 1))
+		case "damage:value":
+			// the result of the compare record if there is one, else of the approve record
+			st := string(data)
+			if i := strings.Index(st, `"compare":{"result":"`); i >= 0 && !strings.HasPrefix(st[i+len(`"compare":{"result":"`):], `"`) {
+				j := i + len(`"compare":{"result":"`)
+				k := j + strings.Index(st[j:], `"`)
+				st = st[:k-1] + string(st[k-1]+1) + st[k:]
+			} else if i := strings.Index(st, `"approve":{"result":"`); i >= 0 && !strings.HasPrefix(st[i+len(`"approve":{"result":"`):], `"`) {
+				j := i + len(`"approve":{"result":"`)
+				k := j + strings.Index(st[j:], `"`)
+				st = st[:k-1] + string(st[k-1]+1) + st[k:]
+			}
+			nd = []byte(st)
 		case "damage:type":
 			nd = []byte(c13TimeRE.ReplaceAllString(string(data), `"time":"$1"`))
 		}
@@ -554,7 +569,7 @@ func init() {
 		Run: c13Run,
 		Meta: func(tier string) core.Meta {
 			return core.Meta{ID: "C13", Level: "model_checking",
-				Rule: "breadth-first search over event histories with canonical-state de-duplication (version ids by first appearance, times and policy numbers by rank); events: new policy {same code, v4/v6/raw differs, ipv6 file dropped, raw file dropped (a dropped file can come back with new content)}, approve ok, approve failed, compare (result computed from the world), manual drift, manual repair, bzip2 of the oldest plain non-current policy (real bzip2), removal of the oldest non-current policy, status damage {empty, 1/3, 2/3, len-1, garbage, one letter of a key changed, a number turned into a string}; every event advances the clock and runs the real status.SetApprove/SetCompare on a real directory tree; after every event the real missing-approve binary runs on that tree (which also holds two never-approved devices sorted around the one under test - they must always be listed); reference = latest conclusive observation tracked from the event list: must-list if it does not establish equality with the current code, must-omit if it does, the observed policy is on disk and the status file is undamaged; non-trivial = states where one of the two obligations applies; every transition is an implementation run (traces_validated = transitions); end to end: for every device type x {do-approve, do-approve --brief} x {compare, approve} x {device differs, device equal, differs with a device error} the real do-approve runs against the simulator and the real missing-approve must list / omit the device accordingly; housekeeping: after each of 9 short histories the repository's cron scripts bin/compress-policies (compress_at = 0) and bin/delete-old-policies (non-current policies older than keep_history) run on the tree, alone and together, and the real missing-approve must still satisfy the reference",
+				Rule: "breadth-first search over event histories with canonical-state de-duplication (version ids by first appearance, times and policy numbers by rank); events: new policy {same code, v4/v6/raw differs, ipv6 file dropped, raw file dropped (a dropped file can come back with new content)}, approve ok, approve failed, compare (result computed from the world), manual drift, manual repair, bzip2 of the oldest plain non-current policy (real bzip2), removal of the oldest non-current policy, status damage {empty, 1/3, 2/3, len-1, garbage, one letter of a key changed, a number turned into a string, one letter of a result word changed}; every event advances the clock and runs the real status.SetApprove/SetCompare on a real directory tree; after every event the real missing-approve binary runs on that tree (which also holds two never-approved devices sorted around the one under test - they must always be listed); reference = latest conclusive observation tracked from the event list: must-list if it does not establish equality with the current code, must-omit if it does, the observed policy is on disk and the status file is undamaged; non-trivial = states where one of the two obligations applies; every transition is an implementation run (traces_validated = transitions); end to end: for every device type x {do-approve, do-approve --brief} x {compare, approve} x {device differs, device equal, differs with a device error} the real do-approve runs against the simulator and the real missing-approve must list / omit the device accordingly; housekeeping: after each of 9 short histories the repository's cron scripts bin/compress-policies (compress_at = 0) and bin/delete-old-policies (non-current policies older than keep_history) run on the tree, alone and together, and the real missing-approve must still satisfy the reference",
 				Assumptions: []string{"status written by the harness through status.SetApprove/SetCompare as doapprove.Main does after a run (do-approve's own derivation of failed/changed is covered by C09)",
 					"strictly increasing clock, one second per event"},
 				Bounds: map[string]any{"quick": "depth 5", "thorough": "depth 7"},
